@@ -837,6 +837,10 @@ func (g *recGraph) createTypeRule(r *Result, scc []*recNode) bool {
 				cons := strings.TrimPrefix(ctx, "/") + ": " + es(call)
 				pos := w.Pos(call.Pos())
 				switch {
+				case calleeOf(curInfo(), call) == ct.fi.Obj:
+					// the memo lookup lives in handleType: calling createType directly skips it, so a type that is being
+					// built (registered, incomplete) is built again instead of being returned
+					r.bad("REC-C12a", ct.name, cons, pos, "createType calls itself directly: the memo lookup of handleType, which is what cuts a declaration cycle, is bypassed — `type Tree []Tree` (a named type whose underlying composite refers back to it without a struct in between) recurses until the stack overflows")
 				case registered:
 					r.ok("REC-C12a", ct.name, cons, pos, "the node is registered under the looked-up key before this recursive descent", true)
 				case strings.Contains(ctx, "isNamed") || strings.Contains(ctx, "Named"):
